@@ -166,3 +166,119 @@ func specialOutputs(e *env) []func() {
 	}
 	return out
 }
+
+// specialInputs: INPUT may name something whose reported size says nothing
+// about its content (procfs and sysfs files report 0), something that is not a
+// regular file (a FIFO, /dev/stdin), a symbolic link, or a file that is still
+// being written when the tool opens it. Exit status 0 requires the output to
+// hold the encryption (or decryption) of everything the input delivered.
+func specialInputs(e *env) []func() {
+	r := e.r
+	var out []func()
+	type src struct {
+		name string
+		prep func(d string, content []byte) (arg string, cmd *cli.Cmd, want func() []byte)
+	}
+	procFile := func(p string) src {
+		return src{"procfs:" + p, func(d string, _ []byte) (string, *cli.Cmd, func() []byte) {
+			return p, &cli.Cmd{Dir: d}, func() []byte { b, _ := os.ReadFile(p); return b }
+		}}
+	}
+	srcs := []src{
+		procFile("/proc/version"), procFile("/proc/filesystems"), procFile("/proc/sys/kernel/ostype"), procFile("/proc/cmdline"),
+		{"fifo-with-writer", func(d string, content []byte) (string, *cli.Cmd, func() []byte) {
+			p := filepath.Join(d, "in.fifo")
+			syscall.Mkfifo(p, 0o600)
+			go func() {
+				f, err := os.OpenFile(p, os.O_WRONLY, 0)
+				if err != nil {
+					return
+				}
+				f.Write(content[:len(content)/2])
+				time.Sleep(20 * time.Millisecond)
+				f.Write(content[len(content)/2:])
+				f.Close()
+			}()
+			return p, &cli.Cmd{Dir: d}, func() []byte { return content }
+		}},
+		{"dev-stdin-from-file", func(d string, content []byte) (string, *cli.Cmd, func() []byte) {
+			os.WriteFile(filepath.Join(d, "stdin.bin"), content, 0o600)
+			return "/dev/stdin", &cli.Cmd{Dir: d, StdinFile: filepath.Join(d, "stdin.bin")}, func() []byte { return content }
+		}},
+		{"dev-stdin-from-pipe", func(d string, content []byte) (string, *cli.Cmd, func() []byte) {
+			return "/dev/stdin", &cli.Cmd{Dir: d, Stdin: content}, func() []byte { return content }
+		}},
+		{"symlink-to-file", func(d string, content []byte) (string, *cli.Cmd, func() []byte) {
+			os.WriteFile(filepath.Join(d, "real.bin"), content, 0o600)
+			os.Symlink("real.bin", filepath.Join(d, "in.link"))
+			return "in.link", &cli.Cmd{Dir: d}, func() []byte { return content }
+		}},
+		{"sparse-file-with-hole", func(d string, content []byte) (string, *cli.Cmd, func() []byte) {
+			p := filepath.Join(d, "sparse.bin")
+			f, _ := os.Create(p)
+			f.Write(content)
+			f.Seek(1<<20, 0)
+			f.Write([]byte("tail after a hole"))
+			f.Close()
+			return "sparse.bin", &cli.Cmd{Dir: d}, func() []byte { b, _ := os.ReadFile(p); return b }
+		}},
+		{"file-completed-while-the-tool-waits-for-recipients", func(d string, content []byte) (string, *cli.Cmd, func() []byte) {
+			// the tool opens INPUT, then blocks reading the recipients from stdin
+			// (-R -); the writer of INPUT finishes meanwhile
+			p := filepath.Join(d, "growing.bin")
+			os.WriteFile(p, content[:10], 0o600)
+			c := &cli.Cmd{Dir: d, StdinPieces: [][]byte{[]byte("# recipients\n"), []byte(keys.NewX("X1").PublicStr + "\n")}, StdinPause: 400 * time.Millisecond}
+			go func() {
+				time.Sleep(150 * time.Millisecond)
+				f, err := os.OpenFile(p, os.O_WRONLY|os.O_APPEND, 0)
+				if err == nil {
+					f.Write(content[10:])
+					f.Close()
+				}
+			}()
+			return "growing.bin", c, func() []byte { return content }
+		}},
+	}
+	for _, s := range srcs {
+		for _, size := range []int{100, 140000} {
+			s, size := s, size
+			if size != 100 && (len(s.name) > 7 && s.name[:7] == "procfs:") {
+				continue
+			}
+			out = append(out, func() {
+				d := e.dir()
+				defer e.done(d)
+				content := mon.DetBytes(fmt.Sprintf("c15-special-in-%d", size), size)
+				arg, c, want := s.prep(d, content)
+				c.Timeout = 60 * time.Second
+				argv := []string{e.age, "-r", keys.NewX("X1").PublicStr, "-o", "out.age", arg}
+				if s.name == "file-completed-while-the-tool-waits-for-recipients" {
+					argv = []string{e.age, "-R", "-", "-o", "out.age", arg}
+				}
+				c.Argv = argv
+				res := cli.Run(c)
+				desc := fmt.Sprintf("special input %s size=%d", s.name, size)
+				r.Eval(1)
+				r.Distinct(desc)
+				r.Tab("special_input", s.name)
+				if res.Err != nil {
+					r.Inconclusive("%s: driver error %v", desc, res.Err)
+					return
+				}
+				if res.Exit != 0 {
+					r.Count("special_inputs_refused", 1)
+					return
+				}
+				got, _ := os.ReadFile(filepath.Join(d, "out.age"))
+				exp := want()
+				if err := e.checkEncrypted(desc, got, false, refKey("X"), exp); err != nil {
+					r.Violate("exit0-incomplete:special-input:"+s.name, fmt.Sprintf("%s: exit 0 but %v (the input delivers %d bytes)", desc, err, len(exp)), map[string]any{"argv": argv})
+					return
+				}
+				r.Count("special_inputs_completely_encrypted", 1)
+				r.Count("complete_results_with_exit_0", 1)
+			})
+		}
+	}
+	return out
+}
